@@ -1,10 +1,12 @@
 import CoreBGP.Model.Peer
 import CoreBGP.Lemmas.Peer
+import CoreBGP.Lemmas.PeerLocal
 /-!
 # C12 (L2 half) — the hold-down: both connections dropped, no dial, inbound refused, until the timer fires
 -/
 namespace CoreBGP.Props.C12L2
 open CoreBGP CoreBGP.Model
+open CoreBGP.Lemmas.PeerLocal
 
 /-- an error handed to the manager changes the damping state iff its class is `damp` (a NOTIFICATION
 sent or received with a code other than Cease): both FSMs are then stopped before the hold-down
@@ -14,7 +16,11 @@ theorem error_classes (s : PState) (i : Dir) (st dd : St) (k : EK) (h : (s.f i).
     ∃ s', (Label.tau, s') ∈ pMain s ∧
       s'.todo = .logErr i :: (if k = .damp then [.disableLog .inn, .disableLog .out, .damp] else []) ∧
       s'.holdDown = s.holdDown ∧ s'.timerArmed = s.timerArmed := by
-  sorry
+  have _ := hm  -- (not needed: `pMain` is stated directly)
+  refine ⟨_, fsm_mem_pMain hnd i (by rw [h]; exact List.mem_singleton.2 rfl), ?_, ?_, ?_⟩
+  · rfl
+  · simp
+  · simp
 
 /-- while the peer is held down both FSM slots are empty — in every reachable state -/
 theorem holddown_slots_empty (d p : Bool) (s : PState) (h : PReach d p s) (hh : s.holdDown = true) :
@@ -29,7 +35,11 @@ theorem holddown_no_dial (d p : Bool) (s : PState) (h : PReach d p s) (hh : s.ho
 /-- … and an inbound connection is refused (closed without an FSM, no effect on the state) -/
 theorem holddown_refuses_inbound (s : PState) (hh : s.holdDown = true) (a : Bool) (s' : PState)
     (h : (Label.inConn a, s') ∈ pMain s) : a = false ∧ s' = s := by
-  sorry
+  have h := mem_pMain_inConn h
+  rw [if_pos (by simp [hh])] at h
+  rw [List.mem_singleton] at h
+  obtain ⟨ha, rfl⟩ := Prod.mk.inj h
+  exact ⟨by injection ha, rfl⟩
 
 /-- hold-down flag ⇔ back-off timer armed (until the peer is stopped) -/
 theorem holddown_iff_timer (d p : Bool) (s : PState) (h : PReach d p s) (hnd : s.pdone = false) :
@@ -39,6 +49,12 @@ theorem holddown_iff_timer (d p : Bool) (s : PState) (h : PReach d p s) (hnd : s
 /-- when the timer fires the flag is cleared and the outbound FSM is re-created: the peer is retried -/
 theorem timer_ends_holddown (s : PState) (ht : s.timerArmed = true) (hm : s.todo = []) (hnd : s.pdone = false) :
     (Label.logUndamp, { s with todo := [.enable .out false], holdDown := false, timerArmed := false }) ∈ next s := by
-  sorry
+  unfold next
+  rw [hm]
+  apply List.mem_append_left
+  apply List.mem_append_left
+  apply List.mem_append_left
+  apply List.mem_append_left
+  exact timer_mem_pMain hnd ht
 
 end CoreBGP.Props.C12L2
